@@ -164,6 +164,65 @@ fn shape_case<G: CurveTag>(s: &Shape17, col: &mut Collector) -> Result<(), Failu
             }
         }
     }
+    // malformed proofs: the capacity answer comes first whatever the proof looks like, and a
+    // malformed proof under sufficient capacity fails for its own reason, not for the generators
+    {
+        use crate::mirror::ProofMirror;
+        use ark_ec::AffineRepr;
+        let m0 = ProofMirror::from_proof(proof);
+        let mut bad: Vec<(&'static str, ProofMirror<G>)> = vec![];
+        let mut a = m0.clone();
+        a.T_1 = G::zero();
+        bad.push(("T_1 = identity", a));
+        let mut b = m0.clone();
+        b.ipp.L.push(p.commitments.first().copied().unwrap_or_else(G::generator));
+        b.ipp.R.push(G::generator());
+        bad.push(("one inner-product round too many", b));
+        if !m0.ipp.L.is_empty() {
+            let mut c = m0.clone();
+            c.ipp.L.pop();
+            c.ipp.R.pop();
+            bad.push(("one inner-product round missing", c));
+            let mut d = m0.clone();
+            d.ipp.L[0] = G::zero();
+            bad.push(("L_0 = identity", d));
+        }
+        let mut e = m0.clone();
+        e.t_x += <G::ScalarField as ark_ff::One>::one();
+        bad.push(("t_x off by one", e));
+        for (name, mm) in bad {
+            let Ok(bp) = mm.to_real() else { continue };
+            for &cap_v in caps {
+                for mode in 0..2u8 {
+                    col.evals_add(1);
+                    let (res, panic) = if mode == 0 {
+                        let v = run_verifier::<G>(&prog, &p.commitments, &bp, &VerifyOpts { cap: Some(cap_v), ..Default::default() });
+                        (v.result, v.panic)
+                    } else {
+                        run_batch::<G>(&[BatchMember { prog: &prog, commitments: &p.commitments, proof: &bp }], cap_v, 11)
+                    };
+                    let mname = ["verify", "batch_verify"][mode as usize];
+                    if let Some(pn) = panic {
+                        return Err(Failure::new(format!("C17:{}-panic", mname), format!("{} panicked on a malformed proof ({}) with capacity {} (need {}): {}", mname, name, cap_v, need, pn), what(json!({"cap_v": cap_v, "proof": name}))));
+                    }
+                    let res = res.unwrap();
+                    let insufficient = res == Err(R1CSError::InvalidGeneratorsLength);
+                    if (cap_v < need) != insufficient || res.is_ok() {
+                        return Err(Failure::new(
+                            format!("C17:{}-malformed-proof", mname),
+                            format!("{} of a malformed proof ({}) with capacity {} (threshold {}) gave {:?}: the insufficient-generators error is due exactly when the capacity is below the threshold", mname, name, cap_v, need, res),
+                            what(json!({"cap_v": cap_v, "proof": name})),
+                        ));
+                    }
+                    let near = cap_v + 1 >= need && cap_v <= need + 1;
+                    if near {
+                        col.nontrivial(fp_of(&(s, name, mode, cap_v)));
+                    }
+                }
+            }
+        }
+        col.class("malformed-proofs");
+    }
     col.class(&format!("need={}", need));
     if s.closure == 1 && s.n2 == 0 {
         col.class("empty-closure");
@@ -186,7 +245,7 @@ pub fn replay(_sub: &str, bytes: &[u8], col: &mut Collector) -> Result<(), Failu
 pub fn run(tier: &str, seed: u64) -> i32 {
     let mut rep = Report::new("C17", tier, seed);
     rep.level = "exploration";
-    rep.rule = "exhaustive grid: first-phase gates 0..9 × second-phase gates 0..9 (n2 = 0 both without a closure and with an empty one) × prover capacity ∈ {0..17, 32} × verifier capacity ∈ {0..17, 32} × {verify, batch_verify alone, batch_verify beside a valid member} × party capacity {1,2,3} × 3 curves; non-trivial = capacity within ±1 of the threshold; distinct = (shape, role/mode, capacity)".into();
+    rep.rule = "exhaustive grid: first-phase gates 0..9 × second-phase gates 0..9 (n2 = 0 both without a closure and with an empty one) × prover capacity ∈ {0..17, 32} × verifier capacity ∈ {0..17, 32} × {verify, batch_verify alone, batch_verify beside a valid member; honest proof and 3–5 malformed ones (identity T_1 / L_0, a round too many / missing, t_x shifted)} × party capacity {1,2,3} × 3 curves; non-trivial = capacity within ±1 of the threshold; distinct = (shape, role/mode, capacity)".into();
     rep.assumptions = vec!["threshold = max(1, next_power_of_two(n1 + n2)) as the property states".into()];
     let mut shapes = vec![];
     for curve in Curve::ALL {
